@@ -50,6 +50,50 @@ func seededVariants(prop string) []variant {
 	return out
 }
 
+// benignMeta is the meta.json of a behaviour-preserving refactoring stored under /verif/benign/<id>/.
+type benignMeta struct {
+	Property string   `json:"property"`
+	Expect   string   `json:"expect"`
+	Props    []string `json:"props"`
+}
+
+// benignVariants: the independently written behaviour-preserving refactorings under /verif/benign/<id>/patch.diff.
+// Each must leave every rule of the property it was written against silent (and, through tools/run_benign.sh, every
+// other check as well).
+func benignVariants(prop string) []variant {
+	dir := filepath.Join(verifRoot, "benign")
+	ents, err := os.ReadDir(dir)
+	if err != nil {
+		return nil
+	}
+	var out []variant
+	for _, e := range ents {
+		if !e.IsDir() {
+			continue
+		}
+		b, err := os.ReadFile(filepath.Join(dir, e.Name(), "meta.json"))
+		if err != nil {
+			continue
+		}
+		var m benignMeta
+		if json.Unmarshal(b, &m) != nil || m.Expect != "silent" {
+			continue
+		}
+		hit := m.Property == prop
+		for _, p := range m.Props {
+			if p == prop {
+				hit = true
+			}
+		}
+		if !hit {
+			continue
+		}
+		out = append(out, variant{ID: "benign/" + e.Name(), Props: []string{prop}, Expect: "silent", Why: "behaviour-preserving refactoring written by an independent sub-agent", Patch: filepath.Join("benign", e.Name(), "patch.diff")})
+	}
+	sort.Slice(out, func(i, j int) bool { return out[i].ID < out[j].ID })
+	return out
+}
+
 type hunk struct {
 	oldStart int
 	old, new []string
@@ -65,6 +109,8 @@ func applyPatchVariant(v variant) (map[string][]byte, bool) {
 	var order []string
 	cur := ""
 	var h *hunk
+	fromNull := false
+	isNew := map[string]bool{}
 	flush := func() {
 		if h != nil && cur != "" {
 			files[cur] = append(files[cur], *h)
@@ -78,6 +124,7 @@ func applyPatchVariant(v variant) (map[string][]byte, bool) {
 			cur = ""
 		case strings.HasPrefix(l, "--- "):
 			flush()
+			fromNull = strings.TrimPrefix(l, "--- ") == "/dev/null"
 		case strings.HasPrefix(l, "+++ "):
 			flush()
 			p := strings.TrimPrefix(l, "+++ ")
@@ -86,6 +133,9 @@ func applyPatchVariant(v variant) (map[string][]byte, bool) {
 			}
 			cur = strings.TrimPrefix(p, "b/")
 			order = append(order, cur)
+			if fromNull {
+				isNew[cur] = true
+			}
 		case strings.HasPrefix(l, "@@ "):
 			flush()
 			f := strings.Fields(l)
@@ -111,6 +161,15 @@ func applyPatchVariant(v variant) (map[string][]byte, bool) {
 	overlay := map[string][]byte{}
 	for _, rel := range order {
 		path := filepath.Join(repoRoot, rel)
+		if isNew[rel] {
+			// a file the change creates: its content is the added lines
+			var nl []string
+			for _, hk := range files[rel] {
+				nl = append(nl, hk.new...)
+			}
+			overlay[path] = []byte(strings.Join(nl, "\n"))
+			continue
+		}
 		src, err := os.ReadFile(path)
 		if err != nil {
 			return nil, false
